@@ -75,6 +75,16 @@ def build(cfg, rng=None):
         sf["VERSION"] = vt          # an SM simfile carrying a VERSION key changes nothing
     sf["BPMS"] = S_VAL["BPMS"][0 if cfg["nb"]["s"] == 1 else 1]
     sf["STOPS"], sf["DELAYS"], sf["WARPS"] = S_VAL["STOPS"], S_VAL["DELAYS"], S_VAL["WARPS"]
+    if cfg.get("replica"):
+        # the chart REPEATS the song's timing: every one of the eleven properties is string-equal on the two
+        # sides (absent with absent); only OFFSET and DISPLAYBPM tell the sides apart
+        for p, stt in zip(PROPS, cfg["tp"]):
+            if stt == "absent":
+                sf.pop(p, None)
+            elif stt == "empty":
+                sf[p] = ""
+            else:
+                sf[p] = C_VAL[p][0 if cfg["nb"]["c"] == 1 else 1] if p == "BPMS" else C_VAL[p]
     exp = {"s": {}, "c": {}}
     for side, obj in (("s", sf),):
         st = cfg["off"][side]
@@ -116,9 +126,99 @@ def build(cfg, rng=None):
 
 
 def observe(rid, cfg, rng=None):
+    sf, chart, exp = build(cfg, rng)
+    return measure(rid, cfg, sf, chart, exp, rng)
+
+
+def edit_chart(chart, cfg, rng):
+    """move the SAME chart object to another pattern of timing properties through the mapping's own methods
+    (item assignment, del, pop, update, setdefault, clear + update); -> the new configuration"""
+    new_tp = [rng.choice(["absent", "empty", "nonempty"]) if rng.random() < 0.5 else t for t in cfg["tp"]]
+    if rng.random() < 0.4:
+        new_tp = [rng.choice(["absent", "empty"]) for _ in PROPS]          # the last non-empty one goes
+    val = lambda p: (C_VAL[p][0 if cfg["nb"]["c"] == 1 else 1] if p == "BPMS" else C_VAL[p])      # noqa
+    only = rng.choice([None, None, "pop", "popitem", "clear"])
+    if only:
+        # removals only, all through ONE method that bypasses item assignment / deletion
+        allne = rng.random() < 0.6
+        new_tp = ["absent" if (t == "nonempty" and (allne or rng.random() < 0.5)) or (t == "empty" and rng.random() < 0.3) else t for t in cfg["tp"]]
+        if only == "clear":
+            rest = [(k, v) for k, v in chart.items()]
+            chart.clear()
+            new_tp = ["absent"] * len(PROPS)
+            if rng.random() < 0.5:
+                return dict(cfg, tp=new_tp, off=dict(cfg["off"], c="absent"), db=dict(cfg["db"], c="absent"))
+            # (put the non-timing items back; OFFSET / DISPLAYBPM come back with them)
+            for k, v in rest:
+                if k not in PROPS:
+                    chart[k] = v
+            return dict(cfg, tp=new_tp)
+        for p, old, t in zip(PROPS, cfg["tp"], new_tp):
+            if t != old:
+                if only == "pop":
+                    chart.pop(p)
+                else:
+                    chart.move_to_end(p)
+                    chart.popitem()
+        if "NOTES" in chart:
+            chart.move_to_end("NOTES")
+        return dict(cfg, tp=new_tp)
+    if rng.random() < 0.15:
+        keep = [(k, v) for k, v in chart.items() if k not in PROPS]
+        chart.clear()
+        chart.update([(k, v) for k, v in keep if k != "NOTES"])
+        chart.update({p: ("" if t == "empty" else val(p)) for p, t in zip(PROPS, new_tp) if t != "absent"})
+        chart.update([(k, v) for k, v in keep if k == "NOTES"])
+    else:
+        for p, old, t in zip(PROPS, cfg["tp"], new_tp):
+            if t == old:
+                continue
+            if t == "absent":
+                how = rng.randrange(3)
+                if how == 0:
+                    del chart[p]
+                elif how == 1:
+                    chart.pop(p)
+                else:
+                    chart.move_to_end(p)
+                    chart.popitem()
+            else:
+                v = "" if t == "empty" else val(p)
+                how = rng.randrange(3)
+                if how == 0 or (how == 2 and p in chart):
+                    chart[p] = v
+                elif how == 1:
+                    chart.update({p: v})
+                else:
+                    chart.setdefault(p, v)
+        if "NOTES" in chart:
+            chart.move_to_end("NOTES")
+    return dict(cfg, tp=new_tp)
+
+
+def observe_history(rid, cfg, rng):
+    """the same simfile / chart OBJECTS observed, edited through the mapping interface, and observed again"""
+    sf, chart, exp = build(cfg, rng)
+    out = [measure(rid, cfg, sf, chart, exp, rng)]
+    for step in range(rng.randint(1, 3)):
+        if chart is not None and cfg["chart"] == "ssc" and rng.random() < 0.8:
+            cfg = edit_chart(chart, cfg, rng)
+        elif cfg["kind"] == "ssc":
+            ver = rng.choice(list(VER_TEXT))
+            if VER_TEXT[ver] is None:
+                sf.pop("VERSION", None)
+            else:
+                sf["VERSION"] = VER_TEXT[ver]
+            cfg = dict(cfg, ver=ver)
+        else:
+            break
+        out.append(measure("%s.%d" % (rid, step + 1), cfg, sf, chart, exp, rng))
+    return out
+
+
+def measure(rid, cfg, sf, chart, exp, rng=None):
     from simfile.timing import TimingData, BeatValues
     from simfile.timing.displaybpm import displaybpm, StaticDisplayBPM, RangeDisplayBPM, RandomDisplayBPM
-    sf, chart, exp = build(cfg, rng)
     rec = {"id": rid, "cfg": cfg, "st": "ok", "td": {}, "disp": [], "nodisp": False}
     try:
         td = TimingData(sf, chart) if chart is not None else TimingData(sf)
@@ -130,6 +230,8 @@ def observe(rid, cfg, rng=None):
         key = name.upper()
         s_text = S_VAL[key][0 if cfg["nb"]["s"] == 1 else 1] if key == "BPMS" else S_VAL[key]
         c_text = C_VAL[key][0 if cfg["nb"]["c"] == 1 else 1] if key == "BPMS" else C_VAL[key]
+        if cfg.get("replica"):
+            return "both" if list(bv) == list(BeatValues.from_str(c_text)) else "other"
         if list(bv) == list(BeatValues.from_str(s_text)):
             return "s"
         if list(bv) == list(BeatValues.from_str(c_text)):
@@ -162,10 +264,10 @@ def observe(rid, cfg, rng=None):
         for side in ("s", "c"):
             if exp[side].get("db") is not None and [Decimal(x) for x in vals] == exp[side]["db"]:
                 return [side, "displaybpm"]
-            bl = [e.value for e in BeatValues.from_str((S_VAL if side == "s" else C_VAL)["BPMS"][0 if cfg["nb"][side] == 1 else 1])]
+            bl = [e.value for e in BeatValues.from_str((S_VAL if side == "s" and not cfg.get("replica") else C_VAL)["BPMS"][0 if cfg["nb"]["c" if cfg.get("replica") else side] == 1 else 1])]
             want = [bl[0]] if len(bl) == 1 else [min(bl), max(bl)]
             if [Decimal(x) for x in vals] == want:
-                return [side, "bpms"]
+                return ["both" if cfg.get("replica") else side, "bpms"]
         return ["?", "?"]
     if isinstance(d, RandomDisplayBPM):
         rec["disp"] = ["random"]
@@ -245,8 +347,18 @@ def run(ctx):
                "off": {"s": rng.choice(offs), "c": rng.choice(offs)},
                "db": {"s": rng.choice(["absent", "empty", "one", "two", "star", "three", "junk", "junkcolon"]),
                       "c": rng.choice(["absent", "empty", "one", "two", "star", "three", "junk", "junkcolon"])},
-               "nb": {"s": rng.choice([1, 2]), "c": rng.choice([1, 3])}, "ignore": rng.random() < 0.3}
-        recs.append(observe(i, cfg, rng))
+               "nb": {"s": rng.choice([1, 2]), "c": rng.choice([1, 3])}, "ignore": rng.random() < 0.3, "replica": False}
+        how = rng.random()
+        if how < 0.15 and cfg["chart"] == "ssc":
+            # the chart repeats the song's timing (lists non-empty on both sides), OFFSET / DISPLAYBPM differ
+            cfg["replica"] = True
+            cfg["nb"]["s"] = cfg["nb"]["c"]
+            cfg["tp"] = ["nonempty" if j in (0, 1, 2, 6) else cfg["tp"][j] for j in range(len(PROPS))]
+            recs.append(observe(i, cfg, rng))
+        elif how < 0.45:
+            recs.extend(observe_history(i, cfg, rng))
+        else:
+            recs.append(observe(i, cfg, rng))
     verdict = trace.validate(ctx, "Trace_TimingSource", DIRS, recs)
     for r in recs:
         cl = verdict[r["id"]]["clause"]
@@ -254,8 +366,9 @@ def run(ctx):
         ctx.evaluations += 1
         ctx.nontrivial_add(json.dumps(r["cfg"], sort_keys=True))
         if cl:
-            ctx.violation("C15:" + cl, "recorded configuration rejected (%s): TimingData %s, displaybpm %s, status %s; configuration %s" % (
-                cl, r["td"], r["disp"], r["st"], json.dumps(r["cfg"])[:500]), {"mode": "cfg", "cfg": r["cfg"]})
+            hist = " [observation %s: the SAME objects were observed before and then edited to this configuration]" % r["id"] if isinstance(r["id"], str) else ""
+            ctx.violation("C15:" + cl + (":after-edit" if hist else ""), "recorded configuration rejected (%s): TimingData %s, displaybpm %s, status %s; configuration %s%s" % (
+                cl, r["td"], r["disp"], r["st"], json.dumps(r["cfg"])[:500], hist), {"mode": "cfg", "cfg": r["cfg"]})
     ctx.notes["c2s_configurations"] = len(recs)
     ctx.sample({"c2s": {"cfg": recs[0]["cfg"], "timingdata_from": recs[0]["td"], "displaybpm": recs[0]["disp"]}})
     ctx.exhaustive = True
